@@ -333,6 +333,19 @@ def run(tier: str, seed: int) -> Report:
         for _ in range(20 if tier == "quick" else 300):
             plan = {fi: (rnd.randint(1, 10), rnd.choice([0, 0, 5, 40])) for fi in range(1, nf + 1) if rnd.random() < 0.7}
             add(run_scenario(ListChooser(vec), prog, ALPHA_FULL, 3, auto=auto, cut_plan=plan), "multisplit")
+    # long frames (a message for us, a frame for another address pair whose payload reads like frames for us, an alive
+    # check with payload): every split point of header and payload, also with a pause between the pieces
+    LONG = ALPHA_FULL + ["DataOtherLong", "DataUsLong", "AliveLong"]
+    i_dol, i_dul, i_al = len(ALPHA_FULL) + 1, len(ALPHA_FULL) + 2, len(ALPHA_FULL) + 3
+    for vec in ([i_dol, i_dul, 0], [i_al, i_dul, 0], [i_dul, i_dol, 0]):
+        base = run_scenario(ListChooser(vec), "RWR", LONG, 3, auto=True)
+        add(base, "long-frames")
+        for fi in (1, 2):
+            flen = 6 + 2 + 64
+            offs = range(1, flen) if tier == "thorough" else sorted({1, 5, 6, 7, 8, 9, 13, 14, 15, 16, 17, 24, 25, 26, 33, 40, 41, 42, 57, 63, 71})
+            for off in offs:
+                for gap in (0, 20):
+                    add(run_scenario(ListChooser(vec), "RWR", LONG, 3, auto=True, cut_plan={fi: (off, gap)}), "long-frames-split")
     # error control words: all seven, at every phase
     for w in ("Err40", "Err41", "Err42", "Err43", "Err44", "Err45", "ErrFF"):
         def runit3(ch: Any, w: str = w) -> dict[str, Any]:
